@@ -137,7 +137,7 @@ def run(ctx):
     rep.guarded("iterators", "anstyle::effect", lambda: rule_iterators(facts, rep))
     rep.guarded("wiring", S, lambda: rule_wiring(facts, rep))
     rep.guarded("colour-tables", "anstyle::color", lambda: rule_colour_tables(facts, rep))
-    for r, n in (("consts", 13), ("bitwise", 7), ("operators", 9), ("iterators", 12), ("wiring", 21), ("colour-tables", 7)):
+    for r, n in (("consts", 13), ("bitwise", 7), ("operators", 9), ("iterators", 6), ("wiring", 21), ("colour-tables", 7)):
         rep.floor(r, n)
 
 
@@ -282,38 +282,65 @@ def rule_iterators(facts, rep):
     for ty, yields in (("EffectIter", "effect"), ("EffectIndexIter", "index")):
         b = facts.body("anstyle", f"<{ET}{ty} as core::iter::traits::iterator::Iterator>::next")
         rep.fn(b["path"])
-        wl = [hir.while_loop(n) for n in hir.walk(b["hir"]) if n.get("k") == "loop" and n.get("src") == "While"]
-        ok_bound = False
-        if len(wl) == 1:
-            c = hir.simp(wl[0][0])
-            if c.get("k") == "bin" and c["op"] == "Lt" and hir.place_str(c["l"]) == "self.index":
-                r = hir.simp(c["r"])
-                ok_bound = hir.is_call(r, "len") and hir.is_def(hir.peel(r["args"][0]), "effect::METADATA")
-        rep.check(ok_bound, "iterators", b["path"], "bound-is-METADATA.len()", "", loc(b))
-        body = wl[0][1] if wl else {}
-        st = hir.stmts_of(body)
-        lets = {s["pat"]["name"]: s["init"] for s in st if s.get("k") == "let" and s["pat"].get("k") == "pbind"}
-        ok_step = any(hir.simp(s).get("k") == "assignop" and hir.simp(s)["op"] == "AddAssign" and hir.place_str(hir.simp(s)["l"]) == "self.index"
-                      and hir.lit_val(hir.simp(s)["r"]) == 1 for s in st) and hir.place_str(lets.get("index", {})) == "self.index"
-        rep.check(ok_step, "iterators", b["path"], "step-1-from-current-index", "", loc(b))
-        eff = hir.simp(lets.get("effect", {}))
-        ok_mask = False
-        if eff.get("ctor") == "anstyle::effect::Effects":
-            m = hir.simp(eff["args"][0])
-            ok_mask = m.get("k") == "bin" and m["op"] == "Shl" and hir.lit_val(m["l"]) == 1 and hir.is_local(m["r"], "index")
-        rep.check(ok_mask, "iterators", b["path"], "mask-is-1<<index", "", loc(b))
-        ifs = [hir.simp(s) for s in st if hir.simp(s).get("k") == "if"]
-        ok_yield = False
-        if len(ifs) == 1:
-            c = hir.simp(ifs[0]["c"])
-            t = hir.stmts_of(ifs[0]["t"])
-            r = hir.simp(t[0]) if t else {}
-            ok_yield = (hir.is_call(c, E + "contains") and hir.place_str(c["args"][0]) == "self.effects" and hir.is_local(c["args"][1], "effect")
-                        and r.get("k") == "ret" and hir.simp(r["e"]).get("ctor", "").endswith("Option::Some")
-                        and hir.is_local(hir.simp(r["e"])["args"][0], yields))
-        rep.check(ok_yield, "iterators", b["path"], f"yield-{yields}-on-contains", "", loc(b))
-        tail = hir.simp(hir.stmts_of(b["hir"])[-1])
-        rep.check(hir.is_def(tail, "Option::None"), "iterators", b["path"], "None-after-the-scan", "", loc(b))
+        # decided by abstract evaluation from every starting index, the set being symbolic: each membership test of a single bit is
+        # a case split (explore), so a path is "bits start..j-1 absent, bit j present" or "none present"
+        import abseval
+        n_bits = len(sgr.EFFECT_ORDER)
+        A = eff_val("a")
+        bad, n_paths = [], 0
+        for start in range(0, n_bits + 2):
+            def run(choices, start=start):
+                queries = []
+
+                def has(j):
+                    queries.append(j)
+                    return ("bool", ev.oracle(("has", j)))
+
+                def contains(a):
+                    m = eff_bits(a[1])
+                    if a[0] != A or m[0] != "int" or m[1] <= 0 or m[1] & (m[1] - 1):
+                        raise Unrecognised("membership test of something other than one bit of the iterated set")
+                    return has(m[1].bit_length() - 1)
+
+                def cmp_(a):
+                    # `(set & bit) == bit`, `(set & bit) != 0` written on the raw bits
+                    op, l, r = a
+                    for x, y in ((l, r), (r, l)):
+                        if x[0] == "bin" and x[1] == "BitAnd" and y[0] == "int":
+                            for u, v in ((x[2], x[3]), (x[3], x[2])):
+                                if u == A[2] and v[0] == "int" and v[1] > 0 and not v[1] & (v[1] - 1) and y[1] in (0, v[1]):
+                                    present = has(v[1].bit_length() - 1)[1]
+                                    return ("bool", present == ((y[1] != 0) == (op == "Eq")))
+                    return None
+                ev = abseval.Evaluator(facts, "anstyle", {E + "contains": contains, "cmp": cmp_})
+                ev.choices = choices
+                fin = []
+                r = ev.call_fn("anstyle", b["path"], [("rec", {"effects": A, "index": ("int", start)})], final=fin)
+                return r, fin[0], queries
+            try:
+                for choices, (r, selfv, queries) in abseval.explore(run):
+                    n_paths += 1
+                    hit = [j for j in queries if choices.get(("has", j))]
+                    want_q = list(range(start, (hit[0] + 1) if hit else n_bits)) if start < n_bits else []
+                    idx = selfv[1].get("index") if selfv and selfv[0] == "rec" else None
+                    if queries != want_q:
+                        bad.append(f"from index {start}: bits tested {queries}, expected {want_q}")
+                    elif selfv[0] != "rec" or selfv[1].get("effects") != A:
+                        bad.append(f"from index {start}: the iterated set is modified")
+                    elif hit:
+                        j = hit[0]
+                        want_r = ("some", ("int", j)) if yields == "index" else None
+                        ok_r = r == want_r if want_r else (r[0] == "some" and r[1][0] == "ctor" and r[1][2] == ("int", 1 << j))
+                        if not ok_r or idx != ("int", j + 1):
+                            bad.append(f"from index {start} with bit {j} the first one present: returns {str(r)[:60]}, index becomes {idx}")
+                    elif r != ("none",) or not (idx and idx[0] == "int" and idx[1] >= n_bits):
+                        bad.append(f"from index {start} with no bit present: returns {str(r)[:60]}, index becomes {idx}")
+            except Unrecognised as ex:
+                bad.append(f"from index {start}: not evaluable: {ex}")
+        rep.count(n_paths)
+        rep.check(not bad and n_paths >= 80, "iterators", b["path"], f"yields-each-present-{yields}-once-in-bit-order",
+                  f"next() from index i tests bits i, i+1, .. in order, returns the first present one ({'its index' if yields == 'index' else 'as a one-bit set'}) "
+                  f"leaving index just after it, and None (index >= {n_bits}) when there is none; {n_paths} paths evaluated. {bad[:2]}", loc(b))
     for meth, ty in (("iter", "EffectIter"), ("index_iter", "EffectIndexIter")):
         b = facts.body("anstyle", E + meth)
         rep.fn(b["path"])
@@ -326,11 +353,16 @@ def rule_iterators(facts, rep):
     # Debug names the members through METADATA[index].name
     d = facts.body("anstyle", "<anstyle::effect::Effects as core::fmt::Debug>::fmt")
     rep.fn(d["path"])
-    idx = [n for n in hir.walk(d["hir"]) if n.get("k") == "field" and n["name"] == "name" and hir.simp(n["e"]).get("k") == "index"
-           and hir.is_def(hir.simp(n["e"])["e"], "effect::METADATA") and hir.is_local(hir.simp(n["e"])["i"], "index")]
-    loops = [hir.for_loop(n) for n in hir.walk(d["hir"]) if n.get("k") == "match" and n.get("src") == "ForLoopDesugar"]
-    loops = [l for l in loops if l]
-    ok = len(idx) == 1 and len(loops) == 1 and bool(hir.calls_in(loops[0][1], E + "index_iter"))
+    # every name printed is METADATA[x].name with x a value handed out by the index iterator of self (a `for`, an `enumerate`,
+    # an explicit `.next()`: panics.Ctx.yielded knows the binding forms), and there is at least one such read
+    import panics
+    panics.YIELD_RANGE.setdefault("anstyle::effect::EffectIndexIter", (0, len(sgr.EFFECT_ORDER) - 1))
+    cx = panics.Ctx(d, {})
+    reads = [n for n in hir.walk(d["hir"]) if n.get("k") == "index" and hir.is_def(hir.simp(n["e"]), "effect::METADATA")]
+    named = [n for n in hir.walk(d["hir"]) if n.get("k") == "field" and n["name"] == "name" and any(hir.simp(n["e"]) is r for r in reads)]
+    from_iter = [r for r in reads if hir.simp(r["i"]).get("k") == "local" and (hir.simp(r["i"])["name"], hir.simp(r["i"]).get("id")) in cx.yielded]
+    its = hir.calls_in(d["hir"], E + "index_iter")
+    ok = bool(reads) and len(from_iter) == len(reads) == len(named) and len(its) == 1 and hir.is_local(hir.peel(its[0]["args"][0]), "self")
     rep.check(ok, "iterators", d["path"], "debug-names-members-via-METADATA", "", loc(d))
     # METADATA names = constant names in bit order
     md = facts.body("anstyle", "anstyle::effect::METADATA")
